@@ -53,6 +53,8 @@ type Violation struct {
 	Case   json.RawMessage `json:"case"`
 	Replay string          `json:"replay"`
 	N      int             `json:"n"`
+	// GlogV: the process ran with this glog verbosity (-v) when the violation was seen
+	GlogV int `json:"glog_v,omitempty"`
 }
 
 type knownEntry struct {
@@ -79,6 +81,7 @@ type Collector struct {
 	known        map[string]int
 	knownSet     map[string]string
 	viol         map[string]*Violation
+	hangs        int
 	extra        map[string]any
 	inconclusive []string
 	start        time.Time
@@ -143,11 +146,24 @@ func Main(m *testing.M, property, level string) {
 	_ = flag.Set("logtostderr", "true")
 	_ = flag.Set("stderrthreshold", "FATAL")
 	flag.Parse()
+	// one shard of every campaign runs with verbose logging (the documented -v flag of the
+	// binaries): log statements evaluate their arguments only then
+	if v, err := strconv.Atoi(os.Getenv("VERIF_GLOG_V")); err == nil && v > 0 {
+		SetGlogV(v)
+	}
 	c := New(property, level)
 	global = c
 	code := m.Run()
 	c.Flush(code)
 	os.Exit(code)
+}
+
+var glogV int
+
+// SetGlogV sets glog's verbosity (the flag can be changed while running).
+func SetGlogV(v int) {
+	glogV = v
+	_ = flag.Set("v", strconv.Itoa(v))
 }
 
 // C returns the process-wide collector.
@@ -214,6 +230,9 @@ func (c *Collector) Record(cs []byte, v *Verdict) []Finding {
 	for _, cl := range v.Classes {
 		c.classes[cl]++
 	}
+	if glogV > 0 {
+		c.classes[fmt.Sprintf("process-runs-with-glog-v=%d", glogV)]++
+	}
 	if v.Inconclusive != "" {
 		c.inconclusive = append(c.inconclusive, v.Inconclusive)
 	}
@@ -240,14 +259,31 @@ func (c *Collector) Record(cs []byte, v *Verdict) []Finding {
 			continue
 		}
 		fresh = append(fresh, f)
+		if strings.Contains(f.Sig, "/hang:") {
+			// every hang costs a watchdog period: a process that keeps finding them stops
+			// early (with what it found; the saved case is then not minimised) instead of
+			// spending its whole time budget waiting
+			if c.hangs++; c.hangs >= EnvInt("VERIF_MAX_HANGS", 8) {
+				if old := c.viol[f.Sig]; old == nil {
+					c.viol[f.Sig] = &Violation{Sig: f.Sig, Msg: f.Msg, Case: append([]byte(nil), cs...), N: 1, GlogV: glogV}
+				} else {
+					old.N++
+				}
+				c.flushLocked(1)
+				fmt.Fprintf(os.Stderr, "stopping after %d hang findings\n", c.hangs)
+				os.Exit(1)
+			}
+		}
 		old := c.viol[f.Sig]
 		if old == nil {
-			c.viol[f.Sig] = &Violation{Sig: f.Sig, Msg: f.Msg, Case: append([]byte(nil), cs...), N: 1}
+			c.viol[f.Sig] = &Violation{Sig: f.Sig, Msg: f.Msg, Case: append([]byte(nil), cs...), N: 1, GlogV: glogV}
+			c.flushLocked(-1)
 		} else {
 			old.N++
 			if len(cs) <= len(old.Case) {
 				old.Msg = f.Msg
 				old.Case = append([]byte(nil), cs...)
+				old.GlogV = glogV
 			}
 		}
 	}
@@ -307,6 +343,13 @@ func (c *Collector) Violations() int {
 func (c *Collector) Flush(exit int) {
 	c.mu.Lock()
 	defer c.mu.Unlock()
+	c.flushLocked(exit)
+}
+
+// flushLocked writes the shard document. It is also called (with exit -1) whenever a new
+// violation signature is recorded, so that a shard that is killed later - a hang in every
+// following case eats the time budget - has still reported what it found.
+func (c *Collector) flushLocked(exit int) {
 	out := os.Getenv("VERIF_OUT")
 	if out == "" {
 		return
@@ -373,9 +416,11 @@ func LoadCase(path string, into any) error {
 		return err
 	}
 	var wrap struct {
-		Case json.RawMessage `json:"case"`
+		Case  json.RawMessage `json:"case"`
+		GlogV int             `json:"glog_v"`
 	}
 	if err := json.Unmarshal(b, &wrap); err == nil && len(wrap.Case) > 0 {
+		SetGlogV(wrap.GlogV) // the verbosity the violation was seen with (0 = default)
 		return json.Unmarshal(wrap.Case, into)
 	}
 	return json.Unmarshal(b, into)
